@@ -9,6 +9,15 @@
 // Module.GC(G, backing store) at every point and every G for ModeGC. After every
 // block the raw DataMPT key/value pairs are decoded by the harness (model_test.go)
 // and compared with what the retained roots need.
+//
+// Parts (parts.txt): "main" = committed blocks only (this is where any new
+// violation shows; keys never start with "dropped-block:"); "dropped"
+// (C11_FAMILY=dropped) = one block per history computed with AddMPTBatch and
+// never committed - a recorded finding, see FINDING-dropped-block.md. A third,
+// whole-blockchain part can be added as another line of parts.txt.
+// Main part phases: 1) every history of B batches over K batches, plain and
+// with every single GC(G)@point; 2) every pair of GC events (smaller alphabet,
+// fewer configurations); 3) longer histories over the first K3 batches.
 package c11
 
 import (
